@@ -107,7 +107,7 @@ func (vc *VC) coneOfInfluence(text string, pos int) []string {
 		}
 		need[i] = true
 		l := vc.body[i]
-		if strings.HasPrefix(l, "(define-fun") {
+		if strings.HasPrefix(l, "(define-fun") || strings.Contains(l, "(assert ") {
 			stack = append(stack, symRe.FindAllString(l, -1)...)
 		}
 	}
